@@ -107,6 +107,7 @@ LEAVES = [
     lambda rng: inline_text(rng),
     lambda rng: inline_structured(rng),
     lambda rng: "#" * rng.randrange(1, 8) + rng.choice([" ", "", "\t"]) + inline_text(rng, 2) + rng.choice(["", " #", " ##  "]),
+    lambda rng: "#" * rng.choice([1, 2, 6, 7, 7, 8, 10]) + rng.choice(["", "", " ", "  ", "\t", " #"]),   # marker-only ATX lines
     lambda rng: rng.choice(["***", "---", "___", "- - -", "**", "--", " * * *", "-\t-\t-"]),
     lambda rng: rng.choice(["```", "~~~", "````", "``` py", "~~~ a b", "```a`b"]),
     lambda rng: "    " + inline_text(rng, 2),
@@ -245,4 +246,6 @@ def line_alphabet() -> list[str]:
         "> a|b", "> -|-", "  - a", "   > a", "\\", "*a", "a*", "`", "[a]", "[a](", "![a](b)", "<a", "&amp;", "  ",
         # characters that str predicates accept but the ASCII tests of the parser do not (isdigit / isspace / isalpha)
         "\u00b9. a", "\u2461) a", "\u0663. a", "1\u00b3. a", "```\u00a0", "\u00a0\u3000",
+        # marker-only ATX lines at and past the level limit
+        "######", "#######", "########## ",
     ]
